@@ -143,16 +143,35 @@ class Ctx:
         except hypothesis.errors.FailedHealthCheck as e:
             raise HarnessError(f"{label}: generator health check failed: {e}") from e
         except hypothesis.errors.Flaky as e:
-            # Hypothesis' 'flaky' report: the test behaved differently on replay.  That is
-            # a defect of the harness (state leaking between cases), never of the repo.
-            raise HarnessError(f"{label}: flaky under replay: {e}") from e
-        except BaseExceptionGroup as eg:  # noqa: F821  (py3.11+)
-            vs = [e for e in eg.exceptions if isinstance(e, Violation)]
-            if vs:
-                for v in vs:
-                    self.record(v)
+            # The test behaved differently when Hypothesis replayed an input.  If the differing outcomes are
+            # oracle Violations, the code under test carries state from one case to the next (the harness resets
+            # everything it knows about between cases): that is reported as a violation, flagged as
+            # history-dependent.  Anything else is a harness error.
+            if isinstance(e, BaseExceptionGroup):  # noqa: F821
+                self._record_group(label, e, flaky=True)
             else:
-                raise HarnessError(f"{label}: {eg!r}") from eg
+                raise HarnessError(f"{label}: flaky under replay: {e}") from e
+        except BaseExceptionGroup as eg:  # noqa: F821  (py3.11+)
+            self._record_group(label, eg)
+
+    def _record_group(self, label, eg, flaky=False):
+        vs = []
+
+        def walk(g):
+            for e in g.exceptions:
+                if isinstance(e, Violation):
+                    vs.append(e)
+                elif isinstance(e, BaseExceptionGroup):  # noqa: F821
+                    walk(e)
+
+        walk(eg)
+        if not vs:
+            raise HarnessError(f"{label}: {eg!r}") from eg
+        for v in vs[:1] if flaky else vs:
+            if flaky:
+                v = Violation(v.clause, v.case, v.message + " [history-dependent: outcome changed when the same input was replayed, "
+                              "i.e. the code under test carried state over from earlier cases]")
+            self.record(v)
 
     def partial(self):
         return {
